@@ -18,7 +18,7 @@ struct Repeat {          // a value/verdict producing call to be repeated at the
 	ref::TA a, b;
 	uint32_t par;
 	// observed outcome
-	bool isVerdict = false, verdict = false;
+	bool isVerdict = false, verdict = false, direct = false;
 	ref::TA result;
 };
 
@@ -362,7 +362,14 @@ void harness::run_case(const eng::Raw& raw, eng::Ctx& ctx)
 					} else {
 						const inclc::Cfg& cfg = inclc::explicit_cfgs()[(r[4] / 3) % 8];
 						rep.op = std::string("CheckInclusion:") + cfg.name;
-						rep.verdict = inclc::run_selection(ctx, *W.th[i], *W.th[j], cfg, "tree:incl:");
+						// the selections without simulation take unprepared operands: half of those calls get the handles themselves
+						rep.direct = !cfg.sim && (r[5] / 2) % 2;
+						if (rep.direct) {
+							eng::LibSection ls(ctx, std::string("tree:incl-direct:") + cfg.name);
+							rep.verdict = ExplicitTreeAut::CheckInclusion(*W.th[i], *W.th[j], inclc::make_param(cfg));
+							ctx.count("direct_verdicts_between_handles");
+						}
+						else rep.verdict = inclc::run_selection(ctx, *W.th[i], *W.th[j], cfg, "tree:incl:");
 					}
 					W.repeats.push_back(rep);
 					break;
@@ -491,7 +498,8 @@ void harness::run_case(const eng::Raw& raw, eng::Ctx& ctx)
 			else {
 				const inclc::Cfg* cfg = nullptr;
 				for (auto& c : inclc::explicit_cfgs()) if (rep.op == std::string("CheckInclusion:") + c.name) cfg = &c;
-				v = inclc::run_selection(ctx, a, b, *cfg, "repeat:incl:");
+				if (rep.direct) { eng::LibSection ls(ctx, std::string("repeat:incl-direct:") + cfg->name); v = ExplicitTreeAut::CheckInclusion(a, b, inclc::make_param(*cfg)); }
+				else v = inclc::run_selection(ctx, a, b, *cfg, "repeat:incl:");
 			}
 			if (v != rep.verdict)
 				ctx.fail("value:repeat:" + rep.op + ":verdict-differs", rep.op + " answered " + (rep.verdict ? "true" : "false") + " inside the history and " +
